@@ -262,6 +262,10 @@ func (h *SimH) do(q *Req, c flamego.Context, rw http.ResponseWriter, r *http.Req
 				q.Note("apply:tok=" + string(dst.T) + ",req=" + rq)
 			}
 		}
+	case OpSeePath:
+		if r != nil {
+			q.Note("sees=" + r.Method + " " + r.URL.Path + "?" + r.URL.RawQuery)
+		}
 	case OpReplaceCtx:
 		if c != nil {
 			ctx, cancel := gocontext.WithCancel(c.Request().Context())
